@@ -16,9 +16,19 @@ from .. import lib, prog
 
 PROP = "C15"
 PROP_FILE = "Props/C15.v"
+# The model's parameter "pattern_get_vars has an arm for Pat::Paren" is CheckModel.pattern_get_vars_traverses_paren (the
+# value for the code under verification).  C15_PATTERN_PAREN=true|false overrides it for an experiment against a
+# scratch worktree (VERIF_REPO) in which the arm was added; the committed value is the one line in CheckModel.v.
+PAREN_OVERRIDE = os.environ.get("C15_PATTERN_PAREN", "").strip().lower()
+if PAREN_OVERRIDE not in ("", "true", "false"):
+    raise lib.Infra("C15_PATTERN_PAREN must be true or false")
 PRELUDE = ("From Coq Require Import List.\nFrom AV Require Import Check.CheckModel.\nImport ListNotations.\n"
+           "Definition c15_pp : bool := %s.\n"
+           "Definition pv {V} (p : pat V) : list V := pat_vars c15_pp p.\n"
            "Definition c15_late : counters := map (fun i => (Base i, 3)) (seq 0 60).\n"
-           "Definition c15_run (P : program) := (map (fun k => (invoke [] P k, check [] P k, check c15_late P k)) [KAscent; KAscentPar; KAscentRun; KAscentRunPar], offenders [] P).\n")
+           "Definition c15_run (T : text) := let P := parse_text T in (map (fun k => (invoke [] P k, check [] P k, check c15_late P k)) [KAscent; KAscentPar; KAscentRun; KAscentRunPar], offenders [] P).\n"
+           % (PAREN_OVERRIDE or "pattern_get_vars_traverses_paren"))
+KNOWN_PAREN = "paren_pattern_escapes_shadow_check"
 CORPUS = os.path.join(lib.VERIF, "corpus", "C15.jsonl")
 
 MSG_CLASSES = [
@@ -133,7 +143,7 @@ def same_verdict(impl, model, offenders=None):
 def oracle_invoke_level(p):
     """what ONE invocation of the macro sees before anything else: a parse-level violation, or an include_source!"""
     for it in p["items"]:
-        if it[0] in ("rule", "macro", "include") and it[1] > 0:
+        if it[0] in ("rule", "macro", "include") and A.item_attrs(it):
             return "err:unexpected_attr"
         if it[0] == "rel" and it[3] and not it[2]:
             return "err:empty_lattice"
@@ -164,7 +174,16 @@ def verdict_tag(v):
     return v[0]
 
 
+def hidden_rebinding(case, kind=None):
+    """every violation of the case (under this macro kind) is a rebinding through a parenthesised sub-pattern"""
+    exps = [e for e in case["expect"] if e["cls"] != "ok" and (kind is None or G.expected_for_kind(e, kind) != "ok")]
+    return bool(exps) and all(e["cls"] == "shadow" and e.get("hidden") for e in exps)
+
+
 def known_class(case, impl, kind=None):
+    if impl[0] in ("ok", "compiled", "no_shadow_error") and hidden_rebinding(case, kind):
+        # pattern_get_vars has no Pat::Paren arm: the rebinding is invisible to the shadowing check
+        return KNOWN_PAREN
     if impl[0] == "err" and impl[1] == "shadow":
         # the other face of the capture: the generated identifier collides with a later binder of the user's variable
         caps = [e.get("capture") for e in case["expect"] if e.get("capture")]
@@ -285,10 +304,10 @@ def rustc_job(jid, p, kind):
     src = A.rust_source_defs(q)
     if src:
         lines += src.split("\n")
-    body = [A.PATTR_TEXT[a] for a in q["attrs"]]
+    body = [A.PATTR_TEXT[a] for a in q["attrs"]] + A.sig_lines(q, "C15Prog")
     if kind in ("ascent", "ascent_par"):
         lines.append("ascent::%s! {" % kind)
-        lines += body + ["pub struct C15Prog;"] + [A.rust_item_line(i) for i in q["items"]]
+        lines += body + [A.rust_item_line(i) for i in q["items"]]
         lines.append("}")
     else:
         lines.append("pub fn c15_entry() { let _r = ascent::%s! {" % kind)
@@ -317,6 +336,8 @@ def rustc_sample(tier, seed, cases):
             if per < len(cs) and len(picks) < n - nb:
                 picks.append(cs[per])
         per += 1
+    # witnesses that go through rustc on every run (the seeded attribute shape, the known finding)
+    picks = [c for c in cases if c.get("rustc_always")] + [c for c in picks if not c.get("rustc_always")]
     jobs = []
     for c in ok_bases[:nb]:
         k = rng.choice(A.KINDS)
@@ -438,8 +459,10 @@ def tie(tier, seed, replay):
                 known = known_class(c, ["err", "shadow", e["detail"]], r["kind"])
         mv = model_by_id[c["id"]]["kinds"][r["kind"]]["check"]
         classes = set("err:" + e["cls"] for e in r["errors"])
-        # model (macro level) vs rustc
-        if mv[0] == "ok" and not r["compiled"] and want != {"err:rustc_unknown_rel_attr"}:
+        hidden = hidden_rebinding(c, r["kind"])
+        # model (macro level) vs rustc (the Rust typing of a rule that rebinds a variable is outside the model: when the
+        # macro lets a hidden rebinding through, rustc may or may not accept what it generated)
+        if mv[0] == "ok" and not r["compiled"] and want != {"err:rustc_unknown_rel_attr"} and not hidden:
             mism.append(dict(case=dict(case=small), impl=got, model=mv, spec=sorted(want), kind="model_differs", known=None,
                              what="correspondence Check/CheckModel.v check vs rustc (%s!, %s): model accepts, rustc rejects: %s" % (r["kind"], c["mutation"], got)))
         if mv[0] == "err" and verdict_tag(mv) not in classes:
@@ -455,13 +478,15 @@ def tie(tier, seed, replay):
                                  what="a well-formed generated program does not compile with rustc (%s!, %s): %s" % (r["kind"], c["mutation"], [e["text"] for e in r["errors"][:2]])))
             continue
         if r["compiled"]:
-            mism.append(dict(case=dict(case=small), impl=got, model=mv, spec=sorted(want), kind="impl_violates_spec", known=None,
+            mism.append(dict(case=dict(case=small), impl=got, model=mv, spec=sorted(want), kind="impl_violates_spec",
+                             known=known_class(c, ["compiled"], r["kind"]),
                              what="an ill-formed program (%s) compiles with rustc (%s!)" % (c["mutation"], r["kind"])))
             continue
         hit = [e for e in r["errors"] if ("err:" + e["cls"]) in want]
         inside = [e for e in hit if 2 <= e["line"] <= r["job"]["nlines"] + 1]
         if not hit:
-            mism.append(dict(case=dict(case=small), impl=got, model=mv, spec=sorted(want), kind="impl_violates_spec", known=known,
+            mism.append(dict(case=dict(case=small), impl=got, model=mv, spec=sorted(want), kind="impl_violates_spec",
+                             known=known or known_class(c, ["no_shadow_error"], r["kind"]),
                              what="rustc rejects the program (%s, %s!) but not with the error of the violation: %s" % (c["mutation"], r["kind"], [e["text"] for e in r["errors"][:3]])))
         elif not inside:
             mism.append(dict(case=dict(case=small), impl=got, model=mv, spec=sorted(want), kind="impl_violates_spec", known=None,
@@ -474,7 +499,9 @@ def tie(tier, seed, replay):
              "rustc: generated crates compiled against /repo, error messages and line numbers of the diagnostics",
         samples=samples,
         distribution=dict(front_by_mutation=dist, front_cases=nfront, rustc_jobs=rdist,
-                          programs=len(cases), decorations=_deco_hist(cases), skipped_bases=STATS.get("skipped_bases", 0)),
+                          programs=len(cases), decorations=_deco_hist(cases), skipped_bases=STATS.get("skipped_bases", 0),
+                          attribute_positions=_attr_hist(cases), rebinding_patterns=_shadow_hist(cases),
+                          pattern_get_vars_traverses_paren=(PAREN_OVERRIDE or "CheckModel.pattern_get_vars_traverses_paren")),
         mismatches=mism,
         trusted_base=["gen/c15_ast.py renderers (Rust text and Coq term from one AST), gen/c15_gen.py injections and their classes (python oracle)",
                       "the verif_hooks driver of ascent_macro (calls ascent_impl under catch_unwind, proc-macro2 fallback spans)",
@@ -484,9 +511,32 @@ def tie(tier, seed, replay):
                      "expressions are opaque to the model: only 'is a plain identifier' and the free variables of an argument matter",
                      "macro bodies mention only their parameters (macro-local variables: C08); no disjunctions (C07)",
                      "generated identifiers of the reserved name space (__1, __arg_pattern_, __x_) are not used by programs",
-                     "unknown attributes on a relation are rejected by rustc, not by the macro (checked on the sampled crates only)"],
+                     "unknown attributes on a relation are rejected by rustc, not by the macro (checked on the sampled crates only)",
+                     "patterns: identifier, x @ p, _, (p), &p, tuples; the variables a binder reports are pat_vars of the model with the parameter "
+                     "pattern_get_vars_traverses_paren = %s; or-patterns, struct patterns, macro and box patterns are not generated" % (PAREN_OVERRIDE or "the value in CheckModel.v")],
         extra=dict(rustc_sample=[dict(job=r["job"]["id"], kind=r["kind"], mutation=r["case"]["mutation"], want=r["want"], compiled=r["compiled"],
                                       errors=[(e["line"], e["text"]) for e in r["errors"][:2]]) for r in rres][:40]))
+
+
+def _attr_hist(cases):
+    """attribute on a non-relation item: item kind x first item / later x signature / none"""
+    h = {}
+    for c in cases:
+        for e in c["expect"]:
+            if e["cls"] == "unexpected_attr" and "first" in e:
+                k = "%s:%s:%s" % (e["on"], "first" if e["first"] else "later", "sig" if e["sig"] else "nosig")
+                h[k] = h.get(k, 0) + 1
+    return h
+
+
+def _shadow_hist(cases):
+    h = {}
+    for c in cases:
+        for e in c["expect"]:
+            if e["cls"] == "shadow" and "form" in e:
+                k = "%s:%s%s" % (e["form"], e.get("shape") or "ident", ":hidden" if e.get("hidden") else "")
+                h[k] = h.get(k, 0) + 1
+    return h
 
 
 def _deco_hist(cases):
